@@ -411,7 +411,7 @@ PROP = Property(
           "cache_clear) x number of drops."),
     strategy=strategy,
     run_case=run_case,
-    budgets={"quick": 20000, "thorough": 600000},
+    budgets={"quick": 20000, "thorough": 150000},
     extra_tiers=[("sched", sched_tier)],
     assumptions=[
         "a device's presence is observed at nowrap=True calls only",
